@@ -10,6 +10,7 @@ The definitions are written in terms of Cop.Model.Scores / Cop.Model.Concord so 
 coq/Props/C13.v and coq/Props/C01.v re-prove, on every run, that the current source has the modelled shape.
 Every deviation from the recognised statement shapes raises Unsupported (fail-closed)."""
 import ast
+from . import srcnorm as _srcnorm
 import itertools
 import os
 import re
@@ -216,7 +217,7 @@ def translate_densities():
     fn_p, al_p, tv_p = _density('probability_density')
     fn_c, al_c, tv_c = _density('cumulative_distribution')
     # log_probability_density, pdf, cdf are inherited from Multivariate (not overridden)
-    mod = ast.parse(open(GAUSS).read())
+    mod = _srcnorm.parse_file(GAUSS)
     cls = next(n for n in mod.body if isinstance(n, ast.ClassDef) and n.name == 'GaussianMultivariate')
     _need([_u(x) for x in cls.bases] == ['Multivariate'], 'GaussianMultivariate bases: ' + str([_u(x) for x in cls.bases]))
     over = [n.name for n in cls.body if isinstance(n, ast.FunctionDef)
